@@ -17,7 +17,9 @@ Protos == {"netrpc", "grpc"}
 AllowedLists == {"unset", "netrpc", "grpc", "both", "emptylist"}
 HostTLS == {"none", "static", "auto"}
 PluginTLS == {"none", "static"}
-PluginMux == {"advertised", "old", "false"}      \* current plugin; old plugin (never prints the field); prints "false"
+PluginMux == {"advertised", "old", "false", "legacy"}   \* current plugin; old plugin (never prints the field); prints "false";
+                                                         \* "legacy": does not even name its protocol (four-field line / a
+                                                         \* ReattachConfig without Protocol), which means net/rpc
 Launch == {"cmd", "runner", "reattach"}
 
 Cells == [proto : Protos, allowed : AllowedLists, htls : HostTLS, ptls : PluginTLS, muxreq : BOOLEAN, pmux : PluginMux, launch : Launch]
@@ -41,7 +43,7 @@ Terminated(c) == c.launch # "reattach" /\ Outcome(c) \in {"start_error_protocol"
 
 VARIABLES cell, outcome
 iv == <<cell, outcome>>
-IInit == cell \in Cells /\ outcome = "none"
+IInit == cell \in Cells /\ outcome = "none" /\ (cell.pmux = "legacy" => (cell.proto = "netrpc" /\ cell.htls = "none" /\ cell.ptls = "none"))   \* such a plugin knows no TLS fields either
 IStep == outcome = "none" /\ outcome' = Outcome(cell) /\ UNCHANGED cell
 ISpec == IInit /\ [][IStep]_iv
 
